@@ -632,6 +632,7 @@ dt_strpdt(const char *str, const char *fmt, char **ep)
 	const char *sp = str;
 	const char *fp;
 	int transd = 0;
+	bool sexyp = false;
 
 	if (LIKELY(fmt == NULL)) {
 		return __strpdt_std(str, ep);
@@ -738,6 +739,10 @@ dt_strpdt(const char *str, const char *fmt, char **ep)
 			if (__strpdt_card(&d, sp, spec, (char**)&sp) < 0) {
 				goto fucked;
 			}
+			/* the epoch instant itself reads as 0 */
+			sexyp = sexyp ||
+				spec.spfl == DT_SPFL_N_EPOCH ||
+				spec.spfl == DT_SPFL_N_EPOCHNS;
 			if (spec.ord &&
 			    __ordinalp(sp_sav, sp - sp_sav, (char**)&sp) < 0) {
 				;
@@ -771,7 +776,7 @@ dt_strpdt(const char *str, const char *fmt, char **ep)
 		goto fucked;
 	}
 	/* check if it's a sexy type */
-	if (d.i) {
+	if (d.i || sexyp) {
 		res.typ = DT_SEXY;
 		res.sexy = d.i;
 	} else {
